@@ -149,6 +149,7 @@ pub fn run08(a: &Args) -> Batch {
             *stats.entry("negative_bridge").or_default() += 1;
         }
         cases.push(Case {
+            post: String::new(),
             term: format!("(mkC08 {}\n {} {})", props::eprops(&ind.props), impl_term, coq::b(finite)),
             json: json!({"origin": origin, "model": serde_json::to_value(&m).unwrap(), "K_data": kj, "nonfinite": props::nonfinite_report(&ind.props)}),
             nontrivial: nenv >= 2,
@@ -197,6 +198,7 @@ pub fn run09(a: &Args) -> Batch {
             *stats.entry("with_windows").or_default() += 1;
         }
         cases.push(Case {
+            post: String::new(),
             term: format!("(mkC09 {}\n {} {})", props::eprops(&ind.props), impl_term, coq::b(finite)),
             json: json!({"origin": origin, "model": serde_json::to_value(&m).unwrap(), "n50_data": serde_json::to_value(d).unwrap(), "nonfinite": props::nonfinite_report(&ind.props)}),
             nontrivial: d.walls_a > 0.001 && d.vol > 0.001,
@@ -259,6 +261,7 @@ pub fn run10(a: &Args) -> Batch {
             *stats.entry("no_envelope_window".into()).or_default() += 1;
         }
         cases.push(Case {
+            post: String::new(),
             term: format!("(mkC10 {} {}\n {} {} {})", coq::n(zone), props_term, impl_term, coq::b(finite), coq::b(roundtrip)),
             json: json!({"origin": origin, "zone": m.meta.climate.to_string(), "model": serde_json::to_value(&m).unwrap(), "q_soljul_data": dj,
                          "classes": if nwin == 0 { vec!["no_envelope_window"] } else { vec![] }}),
